@@ -18,8 +18,10 @@ package c20
 //
 // Oracle (from the statement, per call, judged on what the sink received DURING that call):
 //   - every call of a mutating tool - allowed, denied or failed - whose sink answer is A appends exactly one
-//     complete audit record (one JSON object with timestamp, principal, role, tool, input hash, result, duration;
-//     tool / principal / role as configured and called), whatever happened to earlier writes;
+//     complete audit record (one JSONL line: a JSON object with timestamp, principal, role, tool, input hash,
+//     result, duration; tool / principal / role as configured and called), whatever happened to earlier writes.
+//     Only after an earlier rejected / truncated write of the same server are additional lines AHEAD of the
+//     call's own record tolerated (at most one per lost record: an implementation may re-emit what was lost);
 //   - the gate is independent of the sink and of the history: a call the reference denies is refused and has no
 //     effect on files, queue db or processes, also when its own or an earlier audit write failed;
 //   - tools/list of every session advertises exactly the reference set, whatever happened before;
@@ -514,6 +516,12 @@ func runSeq(w *worker, spec seqSpec) *seqResult {
 			return sr
 		}
 		_ = exited
+		if allowedSignal {
+			// a signal the implementation sent may reach the child after this poll (loaded machine): do not let it
+			// leak into the next sequence of this worker, start that one with a fresh child
+			w.sl.kill()
+			w.sl = nil
+		}
 	}
 	if rec, err := os.ReadFile(w.pidPath + ".invoked"); err == nil {
 		var r struct {
@@ -902,16 +910,17 @@ func allSeqs(thorough bool) []seqSpec {
 				}
 				for _, ss := range sinkSeqs(alphabet, L) {
 					add("sink", cfg, "one", rep, ss)
-					if L > 1 {
+					if L > 1 && L < 4 {
 						add("sink", cfg, "per-call", rep, ss)
 					}
 				}
 			}
 		}
 	}
-	for _, cfg := range []gateCfg{seqCfgNoRT, seqCfgOperate, seqCfgNoPrinc} {
-		sinkBlock(cfg, all, "AFS", 1, 3)
-	}
+	sinkBlock(seqCfgNoRT, all, "AFS", 1, 3)
+	// operate: in quick only the tools this configuration refuses (the nine queue tools run exactly as under admin)
+	sinkBlock(seqCfgOperate, mutatingElems(func(n string) bool { return refGate(refByName[n], seqCfgOperate, false, "") == refDeny }), "AFS", 1, 3)
+	sinkBlock(seqCfgNoPrinc, all, "AFS", 1, 2) // every call denied
 	// the instance_* tools are only allowed with runtime control on; an allowed instance call takes >= 100 ms
 	// (the implementation polls the pid file / the process every 100 ms), hence the shorter sequences in quick
 	sinkBlock(seqCfgFull, inst, "AFS", 1, 2)
@@ -944,13 +953,17 @@ func allSeqs(thorough bool) []seqSpec {
 	// on the first call and a failure in the middle. level 1 adds more sink sequences, level 2 the templates
 	// X,Y,X,Y and X,X,Y.
 	pairBlock := func(cfg gateCfg, elems []callElem, splits []string, level int) {
-		two, three := []string{"AA", "FA"}, []string{"AAA", "AFA"}
+		two, three := []string{"AA", "FA"}, []string{"AFA"}
 		if level >= 1 {
 			two, three = []string{"AA", "FA", "SA", "TA"}, []string{"AAA", "AFA", "FAA", "ASA", "SFA"}
 		}
 		for _, x := range elems {
 			for _, y := range elems {
 				if x == y {
+					continue
+				}
+				// level 0 (quick): a second call of ANOTHER tool only as valid call and as actor-mismatch call
+				if level == 0 && x.Tool != y.Tool && y.Shape != "minimal" && y.Shape != "actor-other" {
 					continue
 				}
 				for _, split := range splits {
@@ -974,9 +987,10 @@ func allSeqs(thorough bool) []seqSpec {
 	}
 	pairBlock(seqCfgNoRT, all, []string{"one"}, 0)
 	if thorough {
+		sinkBlock(seqCfgOperate, all, "AFS", 1, 3)
 		pairBlock(seqCfgNoRT, all, []string{"one"}, 2)
 		pairBlock(seqCfgNoRT, all, []string{"per-call"}, 1)
-		pairBlock(seqCfgOperate, all, []string{"one", "per-call"}, 0)
+		pairBlock(seqCfgOperate, all, []string{"one"}, 0)
 		pairBlock(seqCfgNoPrinc, all, []string{"one"}, 0)
 		// with runtime control on: pairs in which at least one side is an instance_* tool
 		for _, x := range all {
@@ -1012,6 +1026,8 @@ const seqMaxReportedKeys = 24
 
 // seqPart enumerates the sequences on its own workers (directories w40..w51, re-check worker w97).
 func seqPart(r *runner.Run, fx *fixture, deadline time.Time) {
+	seqStart := time.Now()
+	defer func() { r.Set("seq_part_wall_s", float64(int(time.Since(seqStart).Seconds()*10))/10) }()
 	seqs := allSeqs(r.Thorough())
 	nw := runtime.NumCPU()
 	if nw > 12 {
@@ -1267,9 +1283,9 @@ func seqPart(r *runner.Run, fx *fixture, deadline time.Time) {
 	r.Set("seq_samples", sampleList)
 	r.Set("seq_rule", "one long-lived mcp.Server per sequence, audit sink answer enumerated per call {A accept, F (0,ENOSPC), S half write + ErrShortWrite; thorough also T all-but-last-byte + EIO}. "+
 		"Call elements: 15 mutating tools x shape {minimal, actor=other, unknown key, actor=principal (11 actor-taking tools)} = 56. "+
-		"Block sink: every element repeated L=1..3 times x every sink sequence in {A,F,S}^L x {one Serve session, one session per call on the same server} under admin/mutations (instance_* denied by flag), operate/mutations+runtime (admin tools denied by role), admin without principal (all denied); admin/mutations+runtime for the instance_* tools with L<=2 (thorough: those three plus admin/mutations+runtime for all tools with {A,F,S,T}^L, L<=3 and {A,F,S}^4; read/no flags with L<=2). "+
+		"Block sink: every element repeated L=1..3 times x every sink sequence in {A,F,S}^L x {one Serve session, one session per call on the same server} under admin/mutations (12 tools allowed, instance_* denied by flag) and, for the six tools it refuses, under operate/mutations+runtime; L<=2 under admin without principal (all denied) and, for the instance_* tools, under admin/mutations+runtime (thorough: all four configurations for all tools with {A,F,S,T}^L, L<=3 and, in one session, {A,F,S}^4; read/no flags with L<=2). "+
 		"Block mix: X,N,X with N in {tools/list frame, config_parse, unknown tool, instance_status} x {AAA,FAA,SAA} under the three configurations (thorough: plus read/no flags). "+
-		"Block pair: every ordered pair X != Y of the 56 elements under admin/mutations as X,Y x {AA,FA} and X,Y,X x {AAA,AFA} in one session (thorough: more sink sequences {SA,TA,FAA,ASA,SFA}, per-call sessions, X,Y,X,Y and X,X,Y, the operate and no-principal configurations, pairs with an instance_* tool with runtime control on). "+
+		"Block pair: ordered pairs X != Y of the 56 elements under admin/mutations as X,Y x {AA,FA} and X,Y,X x {AFA} in one session - all shape pairs of the same tool, and for two different tools Y as valid call and as actor-mismatch call (thorough: all 56x55 pairs, more sink sequences {SA,TA,AAA,FAA,ASA,SFA}, per-call sessions, X,Y,X,Y and X,X,Y, the operate and no-principal configurations (one session, quick pair set), pairs with an instance_* tool with runtime control on). "+
 		"Judged per call on the bytes the sink received during that call; a sequence is distinct by (block, configuration, split, steps, observed classes)")
 	r.Assume("sequence part: 'appends one audit record' is judged when the answer to the call has been written (before the server reads the next frame): the bytes the sink accepted during a call whose sink answer is 'accept' must be exactly one JSON object with the required fields; nothing is demanded about the audit output of a call whose own write the sink rejects or truncates")
 	r.Assume(fmt.Sprintf("the statement is silent on the outcome of an ALLOWED call whose own audit write fails; observed on this tree and not asserted: %d such calls (valid arguments, seeded state) answered ok, %d answered with an error. After a failed audit write the positive probe 'allowed call is answered without error' is not asserted either (a fail-closed server would satisfy the statement); gate denial, no-effect, tools/list and one-record-per-accepted-write are asserted regardless of the sink history", okN, errN))
